@@ -213,6 +213,8 @@ type Frame struct {
 	env      map[string]Val // spec variables (params, lets)
 	callCount map[string]int
 	loopEntry map[*ssa.BasicBlock]*loopCtx
+	// the world as it stands right after the cut of each loop (what an iteration starts from)
+	loopWorld map[*ssa.BasicBlock]*World
 	parent   *Frame
 	// slices whose elements are written through (&s[i]): register -> cell holding the current slice value
 	sliceObjs map[ssa.Value]*PtrVal
@@ -903,6 +905,12 @@ func (f *Frame) fork() *Frame {
 		n.sliceObjs = make(map[ssa.Value]*PtrVal, len(f.sliceObjs))
 		for k, v := range f.sliceObjs {
 			n.sliceObjs[k] = v
+		}
+	}
+	if f.loopWorld != nil {
+		n.loopWorld = make(map[*ssa.BasicBlock]*World, len(f.loopWorld))
+		for k, v := range f.loopWorld {
+			n.loopWorld[k] = v
 		}
 	}
 	if f.loopIter != nil {
